@@ -7,6 +7,13 @@ Line protocol of C08 (on top of the system model's protocol, see Drv/C01.lean). 
   `C08 ops <history>`
       the remote operations of the last job, in order, joined by `;`:
       `push:<ref>,<ref>..` · `pushall:<prune 0/1>` · `del:<ref>` · `tag:<dest>`   (refs as in C01: D: W: Q: QW: O:)
+      The tag state is EMPTY (`planT s [] ev`): in the histories of the harness an archive tag comes only from a
+      delete-branch job, no branch is deleted twice, and only the delete-branch job looks at tags.
+  `C08 opst <none|tip|other> <history>`
+      the same for a history whose last item is `rmbranch <dest>`, with an explicit state of the archive tag of
+      `<dest>` when the job starts: `none` = no tag, `tip` = the tag is on the tip of the branch (a deletion
+      interrupted after the push of the tag), `other` = the tag is on another commit (commit 0, or 1 when the tip
+      is 0). Answer as for `ops` (empty = the job refuses / has nothing to do).
   `C08 sched <k> <create|advance|force|point> <name> <commit | - | parents | commit> <history>`
       a third party acts immediately before operation `k` (0-based) of the last job; the job stops at the first
       atomic push that is refused (as the real job does) or — a gate re-evaluated after the third party acted may
@@ -57,10 +64,26 @@ def parseThird (action name arg : String) : Option Third :=
   | "point" => arg.toNat?.map (fun c => Third.point name c)
   | _ => none
 
+/-- the archive tags of `opst`: only the tag of the branch that the last item deletes -/
+def tagState (s : Sys) (ev : Event) (mode : String) : Option Tags :=
+  match ev with
+  | .deleteBranch d =>
+    match mode, s.remote.get (.dest d) with
+    | "none", _ => some []
+    | "tip", some c => some [(d, c)]
+    | "other", some c => some [(d, if c = 0 then 1 else 0)]
+    | _, _ => none
+  | _ => none
+
 def handle (args : List String) : String :=
   match args with
   | "ops" :: ws =>
-    withHistory ws (fun s ev => ";".intercalate ((planT s ev).map showOpT))
+    withHistory ws (fun s ev => ";".intercalate ((planT s [] ev).map showOpT))
+  | "opst" :: mode :: ws =>
+    withHistory ws (fun s ev =>
+      match tagState s ev mode with
+      | some tags => ";".intercalate ((planT s tags ev).map showOpT)
+      | none => "bad-op opst")
   | "sched" :: k :: action :: name :: arg :: ws =>
     match k.toNat?, parseThird action name arg with
     | some k, some x =>
